@@ -501,6 +501,21 @@ def scanStamp (sh : StampScan) (old : Int) (v : SqlVal) : Res Int :=
   | .strict => match v with | .time t => .ok t.sec | .null => .ok old | _ => .err .other
   | .unknown => .err .other
 
+/-! ## tex.ToString / MapVal2String / ToStringList on the integer kinds (JsInt64, JsUInt64, int64, uint64, int, uint, Duration) -/
+
+inductive ToStrShape
+  | viaInt    -- every integer kind goes through `int(v)` and `strconv.Itoa`: a uint64 above MaxInt64 prints as a negative number
+  | exact     -- unsigned 64-bit kinds are printed with `FormatUint`, the others with `Itoa`
+  | unknown
+deriving DecidableEq, Repr
+
+/-- the text `tex.ToString` produces for an integer value `v` (−2^63 ≤ v < 2^64) -/
+def toStrNum (sh : ToStrShape) (v : Int) : Bytes :=
+  match sh with
+  | .viaInt => fmtInt 10 (wrapI64 v)
+  | .exact => fmtInt 10 v
+  | .unknown => []
+
 /-! ## configuration regenerated from the source -/
 
 structure Cfg where
@@ -514,6 +529,7 @@ structure Cfg where
   byteConv : ByteConv
   scanInt : ScanShape
   scanStamp : StampScan
+  toStr : ToStrShape
 deriving DecidableEq, Repr
 
 /-- facts the model is written against (compared with `expected` in the tie) -/
@@ -548,7 +564,8 @@ def Proved (c : Cfg) : Prop :=
   c.i64.minLen ≤ 3 ∧ c.u64.minLen ≤ 3 ∧ c.unixTime.minLen ≤ 3 ∧ c.nanoTime.minLen ≤ 3 ∧ c.stamp.minLen ≤ 3 ∧
   c.byte.minLen ≤ 2 ∧ c.dur.minLen ≤ 4 ∧
   c.scanInt = .strict ∧ c.scanStamp = .strict ∧
-  1 ≤ c.i64.minLen ∧ 1 ≤ c.u64.minLen ∧ 1 ≤ c.unixTime.minLen ∧ 1 ≤ c.nanoTime.minLen ∧ 1 ≤ c.stamp.minLen
+  1 ≤ c.i64.minLen ∧ 1 ≤ c.u64.minLen ∧ 1 ≤ c.unixTime.minLen ∧ 1 ≤ c.nanoTime.minLen ∧ 1 ≤ c.stamp.minLen ∧
+  c.toStr = .exact
 instance : DecidablePred Proved := fun c => by unfold Proved; exact inferInstance
 
 /-- today's tree (before the repairs) -/
@@ -556,13 +573,13 @@ def Cfg.today : Cfg :=
   { i64 := ⟨.checkedBare, 1, true, .atoi⟩, u64 := ⟨.unconditional, 3, false, .parseUint64⟩,
     byte := ⟨.unconditional, 2, false, .fromString⟩, unixTime := ⟨.unconditional, 3, false, .atoi⟩,
     nanoTime := ⟨.unconditional, 3, false, .atoi⟩, stamp := ⟨.unconditional, 3, false, .atoi⟩,
-    dur := ⟨.unconditional, 3, false, .parseDuration⟩, byteConv := .wrap, scanInt := .legacy, scanStamp := .legacy }
+    dur := ⟨.unconditional, 3, false, .parseDuration⟩, byteConv := .wrap, scanInt := .legacy, scanStamp := .legacy, toStr := .viaInt }
 
 /-- the repaired tree -/
 def Cfg.repaired : Cfg :=
   { i64 := ⟨.checkedBare, 1, true, .atoi⟩, u64 := ⟨.checkedOnly, 3, false, .parseUint64⟩,
     byte := ⟨.checkedOnly, 2, false, .fromString⟩, unixTime := ⟨.checkedOnly, 3, false, .atoi⟩,
     nanoTime := ⟨.checkedOnly, 3, false, .atoi⟩, stamp := ⟨.checkedOnly, 3, false, .atoi⟩,
-    dur := ⟨.checkedOnly, 3, false, .parseDuration⟩, byteConv := .rangeChecked, scanInt := .strict, scanStamp := .strict }
+    dur := ⟨.checkedOnly, 3, false, .parseDuration⟩, byteConv := .rangeChecked, scanInt := .strict, scanStamp := .strict, toStr := .exact }
 
 end Nv.C20
